@@ -278,6 +278,13 @@ def timeOk (m : Mode) (hh mi ss : Int) : Bool :=
     (if hh = (calOf m).hoursInDay then decide (mi = 0 ∧ ss = 0)
      else decide (mi < (calOf m).minutesInHour ∧ ss < (calOf m).secondsInMinute))
 
+/-- An ordinal date if a day of the year is given, else a calendar date with month and day
+    defaulting to 1. -/
+def pickDate (year : Int) (mo d doy : Option Int) : Date :=
+  match doy with
+  | some n => .ord year n
+  | none => .cal year (mo.getD 1) (d.getD 1)
+
 /-- The `TimePoint(...)` call at the end of `_create_timepoint_from_info`: defaults for what is
     absent, the month/day-of-year conflict, `TimeZone(...)`, `_check_bounds`. -/
 def mkPoint (m : Mode) (year : Int) (mo d doy hh mi ss : Option Int) (tzh tzm : Int) : Except Err TP :=
@@ -286,11 +293,8 @@ def mkPoint (m : Mode) (year : Int) (mo d doy hh mi ss : Option Int) (tzh tzm : 
   | some tz =>
     if (mo.getD 0 ≠ 0 ∨ d.getD 0 ≠ 0) ∧ doy.isSome then .error .badInput
     else
-      let date : Date := match doy with
-        | some n => .ord year n
-        | none => .cal year (mo.getD 1) (d.getD 1)
-      if dateOk m date && timeOk m (hh.getD 0) (mi.getD 0) (ss.getD 0) then
-        .ok ⟨date, hh.getD 0, mi.getD 0, ss.getD 0, tz⟩
+      if dateOk m (pickDate year mo d doy) && timeOk m (hh.getD 0) (mi.getD 0) (ss.getD 0) then
+        .ok ⟨pickDate year mo d doy, hh.getD 0, mi.getD 0, ss.getD 0, tz⟩
       else .error .badInput
 
 def numOf (b : List (Fld × List Char)) (f : Fld) : Option Int :=
